@@ -184,6 +184,18 @@ def work(item):
             if len(inv[t]) > 60:
                 inv[t] = inv[t][::max(1, len(inv[t]) // 60)]
         sv = seedmod.seeds(name, 2 if quick else 10)
+        # plain ASCII numbers as documented must come through clean() untouched (order and count of characters)
+        for s0, v0 in seedmod.seeds(name, 30):
+            for t in (s0, v0):
+                if t.isascii() and not any(c in img for c in t):
+                    n += 1
+                    try:
+                        ct = _clean(t, '')
+                    except Exception as e:  # noqa: B902
+                        ct = ('EXC', repr(e))
+                    if ct != t:
+                        res.viol(ID, 'ascii-text-altered', 'stdnum.util', 'clean', {'kind': 'string', 's': t, 'd': ''},
+                                 'clean(%r) = %r' % (t, ct), 'unchanged', excinfo='len%d' % len(t), devclass='seed', rank=[0, len(t), t])
         # further accepted presentations: the written seed with one character removed (short sections, dropped
         # leading zeros or separators) where validate() still accepts it
         more = []
